@@ -882,6 +882,28 @@ static inline void bg_reverse_copy_u8(const unsigned char *first, const unsigned
   if (7 < n) d[7] = first[n - 1 - 7];
 }
 
+/* --------------------------------------------- vector<EdgeWeight>, WeightMatrix */
+static inline void bg_vec_real__ctor_2(bg_vec_real *v, bg_size n, const bg_real *x) { v->n = n; v->vP = v->vQ = *x; }
+static inline bg_real *bg_vec_real__index(bg_vec_real *v, bg_size i) {
+  BG_PRE(i < v->n, "vector<EdgeWeight>::operator[] index out of range");
+  if (i == G_P) return &v->vP;
+  if (i == G_Q) return &v->vQ;
+  bg_scratch_real = (bg_real)nondet_bg_size();
+  return &bg_scratch_real;
+}
+static inline void bg_mat_real__ctor_2(bg_mat_real *a, bg_size n, const bg_vec_real *row) {
+  a->n = n; a->m = row->n; a->rowP = *row; a->rowQ = *row;
+}
+static inline bg_vec_real *bg_mat_real__index(bg_mat_real *a, bg_size i) {
+  BG_PRE(i < a->n, "WeightMatrix::operator[] index out of range");
+  if (i == G_P) return &a->rowP;
+  if (i == G_Q) return &a->rowQ;
+  bg_scratch_vec_real.n = a->m;
+  bg_scratch_vec_real.vP = (bg_real)nondet_bg_size();
+  bg_scratch_vec_real.vQ = (bg_real)nondet_bg_size();
+  return &bg_scratch_vec_real;
+}
+
 /* --------------------------------------------- path searches: vector<VertexIndex>, vector<bool>, queue */
 static inline void bg_vec_u__ctor_2(bg_vec_u *v, bg_size n, const VertexIndex *x) { v->n = n; v->vP = v->vQ = *x; }
 static inline VertexIndex *bg_vec_u__index(bg_vec_u *v, bg_size i) {
